@@ -30,10 +30,10 @@ fn exh_filters() -> Vec<Vec<FSpec>> {
 fn gen(args: &Args, emit: &mut dyn FnMut(Value)) {
     let mut rng = seeded(args.seed);
     if args.tier == "thorough" {
-        // all bodies of <= 4 symbols over the markup alphabet x 7 filter lists x all single cuts + byte-at-a-time
+        // all bodies of <= 5 symbols over the markup alphabet x 7 filter lists x all single cuts + byte-at-a-time
         let mut seqs: Vec<Vec<usize>> = vec![vec![]];
         let mut frontier: Vec<Vec<usize>> = vec![vec![]];
-        for _ in 0..4 {
+        for _ in 0..5 {
             let mut next = Vec::new();
             for s in &frontier {
                 for k in 0..SYMS.len() {
